@@ -25,7 +25,7 @@ def translators_set(repo):
             info["err"] = "unparsable summary: %s" % e
     out = {"gen_set_ast": info}
     # WHOLE functions (loops, request sizes, index expressions, pointer walks, library calls): Generated/SmpAst.lean (tools/gen_smp_ast.py);
-    # equalities with the hand model in Proofs/SmpAstEq.lean, transported statements in Properties/C12Ast.lean
+    # equalities with the hand model in Proofs/SmpAstEq.lean + SmpAstEq2.lean, transported statements in Properties/C12Ast.lean + C12Ast2.lean
     r = cl.run(["python3", os.path.join(cl.HERE, "gen_smp_ast.py"), "--repo", repo])
     info2 = {"ok": r.returncode == 0}
     if r.returncode != 0:
